@@ -2,6 +2,7 @@
    Statements only; proofs in Proofs/PlanCProofs.v and Base/OrderedPlan.v. *)
 From RJ Require Import Base.Prelude Base.OrderedPlan Model.Settings Model.Core Model.Fs Model.Sync Spec.PlanSpec Proofs.PlanCProofs.
 From Coq Require Import Permutation.
+From RJ Require Import Spec.Mirror Proofs.TimingProofs.
 
 (* For EVERY interleaving sg of the two listing streams (sg is any sequence of arrivals; its two
    projections are the listings) the planner ends with exactly plan_spec of the two listings: the
@@ -16,6 +17,14 @@ Theorem C13_interleaving_independent : forall diff ss sg1 sg2,
   NoDup (lkeys (srcs path entry sg1)) -> NoDup (lkeys (dests path entry sg1)) ->
   actions_of diff ss sg1 = actions_of diff ss sg2.
 Proof. exact interleaving_independent. Qed.
+
+(* ... hence the WHOLE sync - exit status, final destination state, both command traces in order, prompts, skipped
+   entries, statistics, under any fault plan - is literally the same for every interleaving of the two listing streams
+   (Proofs/TimingProofs.v). *)
+Theorem C13_whole_sync_independent_of_interleaving : forall now_z incl normalize chunker cfg S D ans ls ld ft bits1 bits2,
+  valid_listing now_z incl normalize S ls -> valid_listing now_z incl normalize (d_fs D) ld ->
+  sync_one now_z normalize chunker cfg S D ans bits1 ls ld ft = sync_one now_z normalize chunker cfg S D ans bits2 ls ld ft.
+Proof. exact sync_independent_of_interleaving. Qed.
 
 (* Sibling order inside a listing changes the order of the actions, never the set. *)
 Theorem C13_sibling_order : forall diff ss Ls Ls' Ld Ld',
@@ -64,3 +73,4 @@ Proof. vm_compute. split; reflexivity. Qed.
 Print Assumptions C13_plan_deterministic.
 Print Assumptions C13_children_deleted_first.
 Print Assumptions C13_sibling_order.
+Print Assumptions C13_whole_sync_independent_of_interleaving.
